@@ -131,8 +131,9 @@ impl System {
         }
 
         if personal_access_token.is_none() {
-            error!("Personal access token: {} does not exist.", token);
-            return Err(IggyError::ResourceNotFound(token.to_owned()));
+            // The raw token is a secret: neither the log nor the error (logged by every caller) may carry it.
+            error!("Personal access token does not exist.");
+            return Err(IggyError::ResourceNotFound(token_hash));
         }
 
         let personal_access_token = personal_access_token.unwrap();
